@@ -24,12 +24,13 @@ var repoDir = func() string {
 	}
 	return "/repo"
 }()
+
 const repoMod = "github.com/rpcpool/yellowstone-faithful"
 
 type Engine struct {
 	fset      *token.FileSet
 	pkgs      map[string]*packages.Package // by import path
-	contracts map[string]*ContractSet       // by import path
+	contracts map[string]*ContractSet      // by import path
 	theories  *ContractSet
 	typeCache map[string]types.Type
 	assigned  map[string]map[*types.Var]bool
@@ -256,21 +257,21 @@ func (eng *Engine) findFunc(p *packages.Package, key string) (*ast.FuncDecl, *ty
 
 // UnitResult summarises one verified function.
 type UnitResult struct {
-	Pkg, Key    string
-	Mode        string
-	Obls        []*Obligation
-	Abstracted  []string
-	Unsupported string
-	SpecErrors  []string
-	Precise     bool
-	Contracted  bool
-	MissingLoops []int
-	External    []string
+	Pkg, Key        string
+	Mode            string
+	Obls            []*Obligation
+	Abstracted      []string
+	Unsupported     string
+	SpecErrors      []string
+	Precise         bool
+	Contracted      bool
+	MissingLoops    []int
+	External        []string
 	CalledContracts []string
-	UsedLemmas  []string
-	HavocAll    bool
-	Ctx         *Ctx
-	unit        *Unit
+	UsedLemmas      []string
+	HavocAll        bool
+	Ctx             *Ctx
+	unit            *Unit
 }
 
 // allFuncKeys: the keys of every function with a body declared in non-test files of p, in source order.
